@@ -4,7 +4,9 @@ from ._handle_common import run_common
 
 def run(ctx):
     q = ctx.tier == "quick"
-    run_common(ctx, "C06", ["SfProps.C06", "SfProps.C06Block"], l1_scripts=300 if q else 3000, stride=2 if q else 1, nops=40 if q else 80)
+    run_common(ctx, "C06", ["SfProps.C06", "SfProps.C06Block", "SfProps.C01Dwvw"], l1_scripts=300 if q else 3000, stride=2 if q else 1, nops=40 if q else 80)
     if not getattr(ctx, "replay", None):
         from .. import blockcamp
         blockcamp.run(ctx, "C06", 160 if q else 1600)
+        from .. import dwvw
+        dwvw.run(ctx, "C06", 120 if q else 1200)
